@@ -13,6 +13,7 @@
     (urllib quote), round (float rounding), striptags (markupsafe), format (printf formatting).
 -/
 import JinjaV.Gen.ConvertTable
+import JinjaV.Gen.FilterWorkers
 
 namespace JinjaV.FiltStr
 
@@ -326,5 +327,18 @@ def escapingRows : List (String × String × Int × String) :=
   rows.flatMap fun r =>
     (match intOut r with | .raises c => [("int", r.name, r.base, c)] | _ => []) ++
     (match floatOut r with | .raises c => [("float", r.name, r.base, c)] | _ => [])
+
+/-! ## no memoised worker: a filter is a function of its arguments
+
+  A decorator on a function reached from a C23 filter is harmless if it only marks how the function is called
+  (`pass_*`, `async_variant`, overloads, `internalcode`).  Anything else — in particular `functools.lru_cache` / `cache`,
+  whose keys conflate `1 == 1.0 == True` and reject unhashable arguments — makes the result depend on earlier calls. -/
+
+def allowedDecorators : List String :=
+  ["pass_context", "pass_eval_context", "pass_environment", "async_variant", "typing.overload", "t.overload", "internalcode"]
+
+open JinjaV.Gen.FilterWorkers in
+/-- counterexample finder: workers carrying a decorator that is not a known call marker -/
+def suspectWorkers : List Worker := workers.filter fun w => w.decorators.any fun d => !allowedDecorators.contains d
 
 end JinjaV.FiltStr
